@@ -98,8 +98,11 @@ def data(rng, depth=2, width=3):
             return scalar(rng)
         if r < 0.70:
             return obj(d - 1)
-        if r < 0.90:
+        if r < 0.88:
             return distinct_scalars(rng, rng.randint(0, width))
+        if r < 0.94:
+            # a list of mixed kinds: a scalar first, maps and lists (holding maps) after it
+            return [scalar(rng, "sn"), obj(0) or {"k": scalar(rng)}] + ([[scalar(rng, "sn"), {"h": scalar(rng)}]] if rng.random() < 0.5 else [])
         return [obj(d - 1)]
     def obj(d):
         n = rng.randint(0 if d < depth else 1, width)
